@@ -506,10 +506,35 @@ def _dnf(t, pol: bool) -> list[list]:
     return [[(t, pol)]]
 
 
+def _index_on_possibly_empty(ob: Ob, fn, s) -> None:
+    """`uri[-1]` / `uri[0]` on an input string that has not been shown to be non-empty: IndexError for '' (a blank
+    line in a file of URIs) - discover raises instead of returning a converter.  A slice (`uri[-1:]`) is total."""
+    for ev, ctx in s.walk():
+        if not ctx.loops:
+            continue
+        uri = ctx.loops[0].a
+        for t in (ev.a, ev.b):
+            if not isinstance(t, tuple):
+                continue
+            for x in subterms(t):
+                if op(x) == "item" and x[1] == uri and is_const(x[2]) and isinstance(x[2][1], int):
+                    nonempty = any(g.kind == "guard" and ((g.a == uri and g.b is True) or (op(g.a) == "call" and g.a[1] == ("builtin", "len") and g.a[2] == (uri,) and g.b is True)) for g in ctx.guards)
+                    if not nonempty:
+                        ob.violate(
+                            fn.qualname,
+                            where(fn, ev.line),
+                            f"`{show(x)}` indexes into an input string that may be empty: discover([..., '', ...]) raises IndexError instead of returning a converter (a slice such as uri[-1:] would be total)",
+                            witness="discover(['http://example.org/a/1', '']) raises IndexError: string index out of range",
+                            detail="index-on-empty",
+                        )
+                        return
+
+
 @obligation("C19-D7", "every URI that is not already known to the supplied converter is learned from, except GitHub issue links: each way of skipping a URI requires either converter.is_uri(uri) or uri.startswith('https://github.com')", floor=1)
 def d7(cx: Cx, ob: Ob) -> None:
     fn, s = helper(cx, ob)
     conv = ("param", "converter")
+    _index_on_possibly_empty(ob, fn, s)
     from ..rules import table_of_code
 
     tab = table_of_code(cx, s.paths)
